@@ -85,15 +85,19 @@ theorem stopper_is_first (rs : List RSlot) (s : RSlot) (h : stopper rs = some s)
 /-- the verdict `api.Entry` hands to the caller is the reference verdict, for every chain, heap and pool content:
     admitted if a panic was raised or nothing blocked, otherwise the block error of the first blocking rule slot -/
 theorem verdict_matches_spec (ch : ChainDef) (h : Heap) :
-    (apiEntry ch h).2.2.verdict = specVerdict ch := by
-  unfold specVerdict
-  cases hp : entryPanics ch with
-  | true => obtain ⟨c, ks, e⟩ := apiEntry_panics ch h hp; rw [e]; rfl
-  | false =>
-    cases hs : stopOf ch.rs with
-    | allPass => rw [(apiEntry_pass ch h hp hs).2.1]; rfl
-    | block s typ => obtain ⟨_, a, e, _⟩ := apiEntry_block ch h s typ hp hs; rw [e]; rfl
-    | panic => have := (entryPanics_false ch hp).2.1; simp [hs, Stop.isPanic] at this
+    (apiEntry ch h).2.2.verdict = specVerdict ch :=
+  apiEntry_verdict ch h
+
+/-- the same over histories: in the state reached by *any* op sequence, the model's `entry` op answers exactly what the
+    reference (stable sort of the insertion history, first non-passing rule slot, panic ⇒ admitted) answers, and whenever
+    the reference claims a call log the model produces that log -/
+theorem entry_matches_reference (pre : List Op) (e n : String) :
+    (stepEntry (runOps {} pre) e n).2 = (sstep (srunOps {} pre) (.entry e n)).2 ∧
+    ∀ l, (sstep (srunOps {} pre) (.entry e n)).1.lastLog = some l →
+      (stepEntry (runOps {} pre) e n).1.lastLog = l ∨ (stepEntry (runOps {} pre) e n).2 = .bad := by
+  obtain ⟨hc, hn⟩ := runOps_agree_names pre {} {} init_agree rfl
+  obtain ⟨h1, h2, _⟩ := stepEntry_matches _ _ e n hc hn
+  exact ⟨h1, h2⟩
 
 /-- absent panics: if `s` is the first rule slot (in sorted order) that does not pass and it blocks with type `typ`, the
     caller gets exactly `s`'s block error — whatever way `s` produced its result object and whatever the recycled
